@@ -29,7 +29,8 @@ InitPool(cfg) ==
     [now |-> 0, node |-> Empty, track |-> Empty, link |-> Empty, acct |-> Empty,
      trial |-> Empty, nonce |-> Empty,
      reg |-> Empty, look |-> Empty, live |-> {}, mode |-> Empty, addr |-> Empty,
-     dep |-> Empty, paid |-> Empty, cfg |-> cfg]
+     dep |-> Empty, paid |-> Empty, cfg |-> cfg,
+     statc |-> [valid |-> FALSE, at |-> 0, val |-> <<>>]]      \* the status dashboard's cached response
 
 -----------------------------------------------------------------------------
 (* Authentication.  `alter` names what was done to the request after it    *)
@@ -176,6 +177,23 @@ PeerF(P, a, called) ==
              \* "hosterrors" if every host that was asked failed or did not answer in time
              res |-> IF got # {} THEN Ok(got) ELSE IF called = {} THEN Err("nohosts") ELSE Err("hosterrors"),
              calls |-> {<<P.reg[h], "vipnode_whitelist", a.ident>> : h \in called}]
+
+-----------------------------------------------------------------------------
+(* pool_status (pool/status): an unauthenticated dashboard, served from a     *)
+(* cache for StatusCache seconds; a fresh answer describes the store as it is *)
+StatusCache == 60
+StatusFresh(P) == ~(P.statc.valid /\ P.statc.at + StatusCache > P.now)
+
+\* is `val` a correct fresh answer in state P ?
+StatusValOK(P, val) ==
+    /\ val.updated = P.now
+    /\ StatsOK(P, val.stats)
+    /\ DOMAIN val.hosts \subseteq HostMay(P, "") /\ HostMust(P, "") \subseteq DOMAIN val.hosts
+    /\ \A h \in DOMAIN val.hosts :
+          /\ val.hosts[h].seen = P.node[h].seen /\ val.hosts[h].kind = P.node[h].kind /\ val.hosts[h].block = P.node[h].block
+          /\ val.hosts[h].npeers = Cardinality(Tracked(P, h) \cap DOMAIN P.node)
+
+StatusF(P, val) == IF StatusFresh(P) THEN [P EXCEPT !.statc = [valid |-> TRUE, at |-> P.now, val |-> val]] ELSE P
 
 -----------------------------------------------------------------------------
 (* Connections (C09) *)
